@@ -589,6 +589,19 @@ def _is_group_frame(x):
     return False
 
 
+def _value_mapped_dict(b):
+    """b == {k: f(v) for k, v in pairs}  ->  (dict(pairs), binder element, f(v) term), else None."""
+    if head(b) == "comp" and b[1] == "dict" and len(b[3]) == 1 and not b[3][0][1]:
+        ce = b[3][0][0]
+        e = strip(b[2])
+        if head(e) == "tuple" and len(e[1]) == 2 and strip(e[1][0]) == ("item", ce, 0):
+            v = e[1][1]
+            rest = subst(v, {("item", ce, 1): ("const", "NoneType", None)})
+            if not any(x == ce for x in walk(rest)):
+                return ("call", ("glob", "builtins.dict"), (ce[3],), ()), ce, v
+    return None
+
+
 def _is_assert_raise(t):
     t = strip(t)
     return head(t) == "raise" and head(strip(t[1])) == "call" and strip(strip(t[1])[1]) == ("glob", "builtins.AssertionError")
@@ -619,6 +632,41 @@ def small_rewrites(t):
                 return ("call", ("glob", "numpy.sum"), (("bin", "*", t[2][0], t[2][1]),), ())
             if n == "builtins.getattr" and len(t[2]) == 2 and is_const(t[2][1]) and isinstance(t[2][1][2], str):
                 return ("attr", t[2][0], t[2][1][2])
+            if n == "builtins.len" and len(t[2]) == 1 and not t[3]:
+                x = strip(t[2][0])
+                if head(x) == "sub" and strip(x[2]) == ("slice", NONE, NONE, const(-1)):
+                    return ("call", t[1], (x[1],), ())
+            if n == "builtins.list" and len(t[2]) == 1 and not t[3] and head(strip(t[2][0])) == "comp" and strip(t[2][0])[1] in ("list", "gen"):
+                x = strip(t[2][0])
+                return ("comp", "list", x[2], x[3], x[4])
+            if n == "builtins.dict" and len(t[2]) == 1 and not t[3]:
+                x = strip(t[2][0])
+                # dict({k: v for k, v in pairs}) is handled below; dict(d) of a fresh dict comprehension is that comprehension
+                if head(x) == "comp" and x[1] == "dict":
+                    return x
+        if head(f) == "attr" and not t[3]:
+            # x.sum() == numpy.sum(x), x.mean() == numpy.mean(x)
+            if f[2] in ("sum", "mean") and not t[2]:
+                return ("call", ("glob", "numpy." + f[2]), (f[1],), ())
+            # d.get(k, default)  ==  d[k] if k in d else default
+            if f[2] == "get" and 1 <= len(t[2]) <= 2:
+                k = t[2][0]
+                d = t[2][1] if len(t[2]) == 2 else NONE
+                return ("ite", ("cmp", "in", k, f[1]), ("sub", f[1], k), d)
+        return t
+    if h == "mut" and t[1] == "extend" and len(t[3]) == 1 and not t[4]:
+        # c = list(a); c.extend(b)   ==   list(a) + list(b)
+        return ("bin", "+", t[2], ("call", ("glob", "builtins.list"), (t[3][0],), ()))
+    if h == "comp" and t[1] == "dict" and len(t[3]) == 1 and not t[3][0][1]:
+        # {k: v for k, v in pairs}  ==  dict(pairs)
+        ce = t[3][0][0]
+        if strip(t[2]) == ("tuple", (("item", ce, 0), ("item", ce, 1))):
+            return ("call", ("glob", "builtins.dict"), (ce[3],), ())
+        return t
+    if h == "attr" and t[2] in ("size", "shape"):
+        x = strip(t[1])
+        if head(x) == "sub" and strip(x[2]) == ("slice", NONE, NONE, const(-1)):
+            return ("attr", x[1], t[2])
         return t
     if h == "bin" and t[1] == "+":
         if is_const(t[3], ""):
@@ -648,6 +696,12 @@ def small_rewrites(t):
             if head(it) in ("tuple", "list") and t[2] < len(it[1]):
                 return subst(b[2], {elem: it[1][t[2]]})
         return t
+    if h == "cmp" and t[1] in ("in", "notin") and _value_mapped_dict(strip(t[3])) is not None:
+        return ("cmp", t[1], t[2], _value_mapped_dict(strip(t[3]))[0])
+    if h == "sub" and _value_mapped_dict(strip(t[1])) is not None:
+        # {k: f(v) for k, v in pairs}[key]  ==  f(dict(pairs)[key])
+        d, ce, v = _value_mapped_dict(strip(t[1]))
+        return subst(v, {("item", ce, 1): ("sub", d, t[2])})
     if h == "sub":
         b, k = strip(t[1]), strip(t[2])
         if head(b) == "tuple" and is_const(k) and isinstance(k[2], int) and -len(b[1]) <= k[2] < len(b[1]):
@@ -677,7 +731,8 @@ def small_rewrites(t):
     if h == "un" and t[1] == "not":
         x = strip(t[2])
         # not (a not in S) == a in S ; not (a is b) == a is not b
-        neg = {"in": "notin", "notin": "in", "is": "isnot", "isnot": "is"}
+        # (comparison operands are totally ordered: no NaN takes part in a branch condition)
+        neg = {"in": "notin", "notin": "in", "is": "isnot", "isnot": "is", "<": ">=", ">=": "<", ">": "<=", "<=": ">"}
         if head(x) == "cmp" and x[1] in neg:
             return ("cmp", neg[x[1]], x[2], x[3])
         if head(x) == "un" and x[1] == "not" and head(strip(x[2])) in ("cmp", "and", "or"):
@@ -740,14 +795,18 @@ def canon_folds(t):
             return None
         empty_list = head(init) == "list" and not init[1]
         empty_set = (head(init) == "set" and not init[1]) or (head(init) == "call" and strip(init[1]) == ("glob", "builtins.set") and not init[2])
-        if empty_list or empty_set:
+        carried_list = head(init) == "acc" and not any(y == init for y in walk(it))
+        if empty_list or empty_set or carried_list:
             parts = split(step, ())
             if parts is not None and len(parts) == 2 and len(parts[0][0]) == 1 and parts[1][0] == (("un", "not", parts[0][0][0]),):
                 # the same append on both sides of a condition: one unconditional element
                 parts = [((), ("ite", parts[0][0][0], parts[0][1], parts[1][1]))]
             if parts is not None and len(parts) == 1:
                 conds, x = parts[0]
-                c = to_comp("list" if empty_list else "set", x, conds)
+                c = to_comp("set" if empty_set else "list", x, conds)
+                if c is not None and carried_list:
+                    # appending to a list carried by an enclosing loop:  outer + [x for ...]
+                    return ("bin", "+", init, c) if not any(y == init for y in walk(c)) else t
                 if c is not None:
                     return c
         # string accumulation  s = ''; s += piece   ->  ''.join([...])
@@ -773,6 +832,26 @@ def canon_folds(t):
         return t
     if h == "comp" and t[1] == "gen":
         return ("comp", "list", t[2], t[3], t[4])
+    if h == "call" and strip(t[1]) == ("attr", const(""), "join") and len(t[2]) == 1 and not t[3]:
+        # ''.join(parts) where parts is filled by several appends per iteration  ->  the string built by the same concatenations
+        f = strip(t[2][0])
+        if head(f) == "fold" and f[1] == "for" and not f[6] and head(strip(f[4])) == "list" and not strip(f[4])[1]:
+            acc = ("acc", f[2], 0)
+
+            def conv(x):
+                x = strip(x)
+                if x == acc:
+                    return acc
+                if head(x) == "ite":
+                    a, b = conv(x[2]), conv(x[3])
+                    return None if a is None or b is None else ("ite", x[1], a, b)
+                if head(x) == "mut" and x[1] == "append" and len(x[3]) == 1 and not x[4]:
+                    a = conv(x[2])
+                    return None if a is None or any(y == acc for y in walk(x[3][0])) else ("bin", "+", a, x[3][0])
+                return None
+            step = conv(f[5])
+            if step is not None and not any(y == acc for y in walk(f[3])):
+                return canon_folds(("fold", "for", f[2], f[3], const(""), step, ()))
     return t
 
 
